@@ -76,7 +76,27 @@ def event_of(f, bi, t):
         return ("R", tok_nested(c["args"][0]), bi)
     if tr == DES and name == "read_batch_from":
         return ("R", ("many", norm_ty(c["args"][0])), bi)
+    # `(0..n).map(|_| T::read_from(source)).collect::<Result<Vec<_>, _>>()?` and for_each-style writers:
+    # an iterator adapter whose closure performs reads / writes is a loop over the closure's events
+    if name in ("map", "for_each", "try_for_each") and c["krate"] in ("core", "alloc", "std") and len(t["a"]) == 2 and not _IN_CLOSURE[0]:
+        sl = f.slice_of_operand(t["a"][1], at=(bi, f.INF)) if op_local(t["a"][1]) is not None else None
+        for ck in (sl["closures"] if sl else ()):
+            cf = f.prog.funcs.get(ck)
+            if cf is None:
+                continue
+            _IN_CLOSURE[0] = True
+            try:
+                ps = paths(cf)
+            finally:
+                _IN_CLOSURE[0] = False
+            ps = [x for x in ps if x]
+            if len(ps) == 1:
+                kinds = {"R" if any((callee_of(cf.term(b)) or {}).get("trait") in (BR, DES) for b, _ in cf.calls()) else "W"}
+                return (kinds.pop(), ("loop", tuple(ps[0])), bi)
     return None
+
+
+_IN_CLOSURE = [False]
 
 
 def _back_edges(f):
